@@ -33,6 +33,10 @@ pub struct Env {
     /// num_cpus report); the reference has 1
     #[serde(default = "one")]
     pub cpus: usize,
+    /// seed for the process environment variables a library might consult (thread-count
+    /// hints, locale, time zone, home, user, terminal width, log level); 0 = untouched
+    #[serde(default)]
+    pub envvars_seed: u64,
     /// when present the scheduler follows this list instead of policy + PRNG
     #[serde(default)]
     pub replay: Option<Vec<(u64, u32)>>,
@@ -53,14 +57,16 @@ impl Env {
             clock_seed: 0,
             context: Context::External,
             cpus: 1,
+            envvars_seed: 0,
             replay: None,
         }
     }
     pub fn describe(&self) -> String {
         format!(
-            "T={} cpus={} policy={} sched={} entropy={} clock={} ctx={:?}{}",
+            "T={} cpus={} envvars={} policy={} sched={} entropy={} clock={} ctx={:?}{}",
             self.threads,
             self.cpus,
+            self.envvars_seed,
             self.policy,
             self.sched_seed,
             self.entropy_seed,
@@ -77,6 +83,8 @@ pub struct RunStats {
     pub nonzero_choices: u64,
     pub max_options: u32,
     pub pushes: u64,
+    #[serde(default)]
+    pub preempt_points: u64,
     pub steals: u64,
     pub injections: u64,
     pub handoffs: u64,
@@ -96,6 +104,7 @@ impl RunStats {
             nonzero_choices: t.nonzero.len() as u64,
             max_options: t.max_options,
             pushes: t.pushes,
+            preempt_points: t.preempt_points,
             steals: t.steals,
             injections: t.injections,
             handoffs: t.handoffs,
@@ -165,6 +174,7 @@ pub fn run_sim_warm<R: Send>(env: &Env, warm: impl Fn() + Sync + Send, f: impl F
     seams::begin_process(env.entropy_seed, env.clock_seed);
     // threads created from here on inherit this affinity mask
     crate::driver::set_cpus(env.cpus.max(1));
+    let saved_vars = set_env_vars(env.envvars_seed);
     sim::reset_pool_ids(0);
     sim::set_default_config(cfg.clone());
     sim::install_global(cfg);
@@ -203,6 +213,7 @@ pub fn run_sim_warm<R: Send>(env: &Env, warm: impl Fn() + Sync + Send, f: impl F
     let counters = seams::counters();
     let trace = sim::shutdown_global().expect("global pool");
     crate::driver::set_cpus(1);
+    restore_env_vars(saved_vars);
     let results = results.map_err(|_| LAST_PANIC.lock().map(|g| g.clone()).unwrap_or_default());
     SimOutcome { results, stats: RunStats::from(&trace, counters), choices: trace.nonzero }
 }
@@ -220,4 +231,44 @@ pub fn run_sim_once<R: Send>(env: &Env, f: impl FnOnce() -> R + Send) -> Result<
         f()
     });
     o.results.map(|mut v| v.remove(0))
+}
+
+const VARS: &[&str] = &["RAYON_NUM_THREADS", "OMP_NUM_THREADS", "OPENBLAS_NUM_THREADS", "MKL_NUM_THREADS", "LANG", "LC_ALL", "LC_NUMERIC", "TZ", "HOME", "USER", "COLUMNS", "RUST_LOG", "RUST_BACKTRACE"];
+
+/// Set the simulated process' environment variables (no simulated thread exists yet).
+fn set_env_vars(seed: u64) -> Vec<(&'static str, Option<std::ffi::OsString>)> {
+    if seed == 0 {
+        return vec![];
+    }
+    let mut r = crate::prng::Prng::new(seed ^ 0xE17);
+    let saved: Vec<_> = VARS.iter().map(|k| (*k, std::env::var_os(k))).collect();
+    for k in VARS {
+        let v: Option<String> = match *k {
+            "RAYON_NUM_THREADS" | "OMP_NUM_THREADS" | "OPENBLAS_NUM_THREADS" | "MKL_NUM_THREADS" => Some((1 + r.below(32)).to_string()),
+            "LANG" | "LC_ALL" | "LC_NUMERIC" => Some(r.pick(&["C", "en_US.UTF-8", "de_DE.UTF-8", "tr_TR.UTF-8", "ja_JP.UTF-8"]).to_string()),
+            "TZ" => Some(r.pick(&["UTC", "Asia/Tokyo", "America/New_York", "Europe/Berlin"]).to_string()),
+            "HOME" => Some(format!("/nonexistent-home-{}", r.below(1000))),
+            "USER" => Some(format!("user{}", r.below(1000))),
+            "COLUMNS" => Some((20 + r.below(200)).to_string()),
+            "RUST_LOG" => Some(r.pick(&["trace", "debug", "off"]).to_string()),
+            "RUST_BACKTRACE" => Some(r.pick(&["0", "1", "full"]).to_string()),
+            _ => None,
+        };
+        // some variables are unset instead
+        if r.chance(0.2) {
+            std::env::remove_var(k);
+        } else if let Some(v) = v {
+            std::env::set_var(k, v);
+        }
+    }
+    saved
+}
+
+fn restore_env_vars(saved: Vec<(&'static str, Option<std::ffi::OsString>)>) {
+    for (k, v) in saved {
+        match v {
+            Some(v) => std::env::set_var(k, v),
+            None => std::env::remove_var(k),
+        }
+    }
 }
